@@ -1230,6 +1230,14 @@ pub fn run_case(ops: &[Stmt]) -> CaseResult {
                 Ok(()) => {
                     let (state, snaps) = observe(&w);
                     out.push(format!("{k}:t=[{}] {state}", w.trace.borrow().join(" ")));
+                    if verdicts.len() < 8 && verdicts.iter().any(|v| class_of(v) == "[late-edge") {
+                        // after a late edge the VALUES downstream are unpredictable, the subscriptions are not: the reader is
+                        // subscribed to what it read, so from the next operation on it must re-run when that changes
+                        let mut fl = BTreeSet::new();
+                        for v in judge(&w, k, op, &snaps, &tracked_prev, &vals_prev, &dirty_prev, &mut fl) {
+                            if matches!(class_of(&v), "[missed-run" | "[stale-subscribers") { add(&mut verdicts, v); }
+                        }
+                    }
                     if verdicts.len() < 8 && !verdicts.iter().any(|v| class_of(v) == "[late-edge") {
                         let vs = judge(&w, k, op, &snaps, &tracked_prev, &vals_prev, &dirty_prev, &mut flags);
                         // within one operation, staleness downstream of a late edge (a computation that read the
@@ -1669,6 +1677,12 @@ fn templates() -> Vec<Vec<Stmt>> {
     t.push(vec![Signal(0), Memo(vec![Read(0), Read(0)]), Memo(vec![IfPos(0, vec![Read(1)], vec![])]), s_set(0, 1), s_set(0, 2), s_set(0, 0)]);
     t.push(vec![Signal(0), Memo(vec![Read(0)]), Memo(vec![Read(1)]), Memo(vec![IfPos(0, vec![Read(2)], vec![])]), Effect(vec![Read(3)]), s_set(0, 1), s_set(0, 2)]);
     t.push(vec![Signal(0), Signal(5), Memo(vec![Read(1)]), Memo(vec![IfPos(0, vec![Read(2)], vec![Read(1)])]), s_set(0, 1), s_set(1, 6), s_set(0, 0), s_set(1, 7)]);
+    // after a late edge the reader is SUBSCRIBED to what it started to read: a later write that reaches it only through that
+    // memo re-runs it (memo and effect readers; single write and batch; the memo over one and over two signals)
+    t.push(vec![Signal(0), Signal(3), Memo(vec![Read(0), Read(1)]), Memo(vec![IfPos(0, vec![Read(2)], vec![])]), s_set(0, 2), s_set(1, 10), s_set(1, 11), s_set(0, 0), s_set(1, 12)]);
+    t.push(vec![Signal(0), Signal(3), Memo(vec![Read(0), Read(1)]), Effect(vec![IfPos(0, vec![Read(2)], vec![])]), s_set(0, 2), s_set(1, 10), s_set(1, 11)]);
+    t.push(vec![Signal(0), Signal(1), Memo(vec![Read(1)]), Effect(vec![IfPos(0, vec![Read(2)], vec![])]), Batch(vec![s_set(1, 5), s_set(0, 1)]), s_set(1, 6), s_set(1, 7)]);
+    t.push(vec![Signal(0), Signal(1), Memo(vec![Read(1)]), Memo(vec![Read(2)]), Effect(vec![IfPos(0, vec![Read(3)], vec![])]), Batch(vec![s_set(0, 1), s_set(1, 5)]), s_set(1, 6), s_set(0, 0), s_set(1, 7)]);
     // a memo created during the propagation that reads a pending memo
     t.push(vec![Signal(0), Memo(vec![Read(0)]), Effect(vec![IfPos(0, vec![Memo(vec![Read(1)]), Read(2)], vec![])]), s_set(0, 1), s_set(0, 2)]);
     t.push(vec![Signal(0), Memo(vec![Read(0)]), Effect(vec![Read(0), Memo(vec![Read(1)])]), s_set(0, 1), s_set(0, 2)]);
